@@ -605,6 +605,20 @@ func TestVerifC15(t *testing.T) {
 		for len(pending) > 0 {
 			p := pending[0]
 			useNode(p.node)
+			if len(pending)%2 == 1 {
+				// the clean-up meets a storage outage (the distributed solver cannot delete the token file
+				// and reports it): the challenge is over all the same — this instance no longer holds its
+				// material in memory (the token file is removed by the clean-up repeated after the outage)
+				st.Fault = func(int, string, string) error { return errVInjected }
+				p.solver.CleanUp(ctx, chals[p.chal].Challenge)
+				ch := chals[p.chal].Challenge
+				if got, ok := GetACMEChallenge(vChallengeKeyRef(ch.Type, ch.Identifier.Type, ch.Identifier.Value)); ok {
+					o.Mon("C15 cleaned-up-challenge-still-held-in-memory", map[string]any{"history": histTok(), "node": p.node,
+						"challenge": fmt.Sprintf("%s %s %s", ch.Type, ch.Identifier.Value, got.Token), "during": "storage outage while cleaning up"})
+				}
+				st.Fault = nil
+				o.Stat("cleanups_under_storage_outage", 1)
+			}
 			p.solver.CleanUp(ctx, chals[p.chal].Challenge)
 			tf := "0"
 			if p.test {
